@@ -126,6 +126,30 @@ func tableWorker(c *evid.Ctx, prop string) {
 			tblReport(c, prop, d.CheckTransition(snap, after, ev))
 			snap = after
 		}
+		// Multi-step: a contact in another bucket, known only from its own queries, has its maintenance
+		// ping answered from its address under an ID that belongs in the full, good bucket (a restarted
+		// node). Whatever the table does with either ID, it stays well-formed and the bucket intact.
+		for k := 0; k < 3; k++ {
+			other := bucket + 1 + r.Intn(4)
+			x := d.FloodContacts(other, 1)[0]
+			ev := d.InboundQuery(x, false)
+			after := d.N.S.VerifTable()
+			tblReport(c, prop, d.CheckWellFormed(after))
+			tblReport(c, prop, d.CheckTransition(snap, after, ev))
+			snap = after
+			for _, e := range after.Nodes {
+				if e.Id == x.ID && e.Port == x.UDP.Port && e.IP.Equal(x.UDP.IP) {
+					ev = d.QuestionablePingOtherID(e, bucket)
+					after = d.N.S.VerifTable()
+					c.Eval(1)
+					c.Count("maintenance pings answered under an ID of a full good bucket", 1)
+					tblReport(c, prop, d.CheckWellFormed(after))
+					tblReport(c, prop, d.CheckTransition(snap, after, ev))
+					snap = after
+					break
+				}
+			}
+		}
 		b1 := inBucket(snap)
 		same := len(b1) == len(b0)
 		for p := range b0 {
